@@ -217,6 +217,22 @@ def _assoc_bounds(node: Any) -> tuple[Fr, Fr]:
     return max(ha, hb), min(la, lb)
 
 
+def _engine_association(node: Any) -> Any:
+    """The tree as the engine associates an unparenthesised chain: a+b-c -> a+(b-c), a*b/c -> a*(b/c)."""
+    if node[0] in ("s", "c"):
+        return node
+    if node[0] in ("cons", "prod"):
+        return [node[0], _engine_association(node[1])]
+    if node[0] == "clip":
+        return ["clip", _engine_association(node[1]), node[2], node[3]]
+    left, right = _engine_association(node[1]), _engine_association(node[2])
+    if node[0] == "-" and left[0] == "+":
+        return ["+", left[1], ["-", left[2], right]]
+    if node[0] == "/" and left[0] == "*":
+        return ["*", left[1], ["/", left[2], right]]
+    return [node[0], left, right]
+
+
 def _float_eval(node: Any, vals: list[float | None]) -> float:
     """Plain binary64 evaluation (conventional association); NaN for undefined."""
     op = node[0]
@@ -672,8 +688,10 @@ def run_case(case: Any, pid: str) -> Verdict:
         if peak > Fr(10) ** 300:
             # binary64 overflows somewhere (under the conventional or the engine's association): only the clear case is judged (the exact result itself is beyond
             # the float range AND a plain float evaluation is not finite either, i.e. no cancellation hides it)
-            fl = _float_eval(tree, [None if x is None else float(x) for x in vals])
-            if want is not None and abs(want) > Fr(2) ** 1024 and not math.isfinite(fl):
+            fvals = [None if x is None else float(x) for x in vals]
+            fl = _float_eval(tree, fvals)
+            fl_engine = _float_eval(_engine_association(tree), fvals)
+            if want is not None and abs(want) > Fr(2) ** 1024 and not math.isfinite(fl) and not math.isfinite(fl_engine):
                 want = None
                 v.labels.add("overflowing_result")
             else:
